@@ -364,57 +364,59 @@ def valuation_formulas(ck, an, want: set):
     cvar, qvar = [e.id for e in loop.target.elts]
     kindp = fa.f.params[1]
     Cn = loop_item(fa, loop, 0)
-    stores = [n for n in ast.walk(loop) if isinstance(n, ast.Assign) and len(n.targets) == 1 and isinstance(n.targets[0], ast.Subscript) and isinstance(n.targets[0].value, ast.Name)
-              and fa.sym.canon(n.targets[0].slice) == Cn.key()]
-    ck.check(len(stores) == 1 and not fa.syntactic_guards(stores[0]), "ARGFLOW", "S6.value-stored-per-contract", subj, fa.loc(loop), "every position's value is stored under its contract, unconditionally",
-             "the per-contract value is not stored unconditionally under the contract", construct="holdings_values[contract] = value")
-    if len(stores) != 1:
+    rets = [r for r in returns_in(fa) if r.value is not None]
+    cont = rets[0].value if len(rets) == 1 else None
+    for _ in range(6):       # through plain aliases (`out = holdings_values; return out`), down to the local that names the mapping
+        if isinstance(cont, ast.Name):
+            nxt, _at = deref(fa, cont)
+            d_ = fa.rd.reaching(cont.id, fa.cfg.node_of(cont).id) if fa.cfg.node_of(cont) is not None else []
+            if len(d_) == 1 and d_[0].kind == "assign" and isinstance(d_[0].value, ast.Name):
+                cont = d_[0].value
+                continue
+        break
+    if not isinstance(cont, ast.Name):
+        ck.fail("ARGFLOW", "S6.values-returned", subj, fa.f.loc, "holdings_values does not return the mapping it fills", construct="return holdings_values")
         return
-    st0 = stores[0]
+    ck.ok("ARGFLOW", "S6.values-returned", subj, fa.loc(rets[0]), "the mapping filled per contract is returned", construct="return holdings_values")
     book = f"self.exchange[{cvar}]"
 
-    def stored_under(facts):
-        got = {}
-
-        def on_stmt(s, fw):
-            if s is st0:
-                got["v"] = fw.ev(s.value)
-                got["fw"] = fw
-                got["specs"] = {}
-        fw = under(fa, facts, on_stmt=on_stmt)
-        return got.get("v"), fw
-
-    def spec_at_store(facts, text):
-        """the formula, evaluated at the store under the same assumptions (same names, same normaliser)"""
-        got = {}
-
-        def on_stmt(s, fw):
-            if s is st0:
-                got["v"] = fw.ev(ast.parse(text, mode="eval").body)
-        under(fa, facts, on_stmt=on_stmt)
-        return got.get("v")
+    def iteration(facts, text=None):
+        """(value stored for the contract by one iteration of the loop under the assumptions, the specification `text`
+        evaluated in that same final state). The value is read off the state at the END of the iteration - every normal
+        end (fall-through or `continue`) joined - so one store after an if/else, a store per branch, or guard clauses
+        with `continue` are all the same to the rule."""
+        fw = under(fa, facts)
+        st = fw.loop_iteration_end.get(id(loop))
+        if st is None:
+            return None, None
+        ckey = st.locals[cvar].key() if cvar in st.locals else cvar
+        base = st.locals[cont.id].key() if cont.id in st.locals else cont.id      # slots of a local mapping are keyed by the mapping's value id
+        v = st.slots.get(f"{base}[{ckey}]")
+        w = None
+        if text is not None:
+            fw.st = st
+            w = fw.ev(ast.parse(text, mode="eval").body)
+        return v, w
 
     formulas = {"notional": "{q} * ({price}) * {c}.multiplier", "liquidation": "{c}.cash_requirement * {q} * ({price}) * {c}.multiplier + self._holdings_margins[{c}]"}
     for kind, form in formulas.items():
         facts = [f"{qvar} != 0", f"{kindp} == '{kind}'"]
-        got, _ = stored_under(facts)
-        wants = [spec_at_store(facts, form.format(q=qvar, c=cvar, price=sp.format(book=book, q=qvar))) for sp in PRICE_SPELLINGS]
+        got, wants = None, []
+        for sp in PRICE_SPELLINGS:
+            got, w = iteration(facts, form.format(q=qvar, c=cvar, price=sp.format(book=book, q=qvar)))
+            wants.append(w)
         ok = got is not None and any(w is not None and got == w for w in wants)
         what = {"notional": "notional value = position x liquidation-side price x multiplier", "liquidation": "liquidation value = cash requirement x position x liquidation-side price x multiplier + posted margin"}[kind]
-        ck.check(ok, "LIN", f"S6.value-{kind}", subj, fa.loc(st0), what + " (bid for a long, ask for a short, of the contract's own book)",
-                 f"{kind} value of a non-flat position = {got.key()[:300] if got is not None else 'not stored'}; expected {wants[0].key()[:300] if wants[0] is not None else '?'}", construct=f"kind == '{kind}'")
-    got0, _ = stored_under([f"{qvar} == 0"])
-    ck.check(got0 is not None and got0 == Poly.const(0), "CONST", "S6.flat-worth-zero", subj, fa.loc(st0), "a flat position is worth 0", f"a flat position is valued {got0.key()[:120] if got0 is not None else 'nothing'}",
+        ck.check(ok, "LIN", f"S6.value-{kind}", subj, fa.loc(loop), what + " (bid for a long, ask for a short, of the contract's own book), stored under the contract on every path",
+                 f"{kind} value of a non-flat position = {got.key()[:300] if got is not None else 'not stored on every path'}; expected {wants[0].key()[:300] if wants and wants[0] is not None else '?'}", construct=f"kind == '{kind}'")
+    got0, _ = iteration([f"{qvar} == 0"])
+    ck.check(got0 is not None and got0 == Poly.const(0), "CONST", "S6.flat-worth-zero", subj, fa.loc(loop), "a flat position is worth 0 (and is stored)", f"a flat position is valued {got0.key()[:120] if got0 is not None else 'nothing'}",
              construct="value = 0.0")
     # an unsupported kind is an error, not a silent value
-    got_bad, fwb = stored_under([f"{qvar} != 0", f"{kindp} != 'notional'", f"{kindp} != 'liquidation'"])
-    ck.check(got_bad is None, "GUARD", "S6.unknown-kind-raises", subj, fa.loc(st0), "an unsupported kind raises", f"an unsupported kind is valued {got_bad.key()[:120] if got_bad is not None else ''}", construct="raise ValueError(\"Unsupported 'kind'.\")")
-    rets = [r for r in returns_in(fa) if r.value is not None]
-    cont = fa.sym.canon(st0.targets[0].value, fa.node_of(st0).id)
-    ck.check(len(rets) == 1 and fa.sym.canon(rets[0].value) == cont, "ARGFLOW", "S6.values-returned", subj, fa.f.loc, "the mapping of values is returned", f"holdings_values returns {[fa.sym.canon(r.value)[:80] for r in rets]}",
-             construct="return holdings_values")
-    ck.check(not any(isinstance(x, (ast.Continue, ast.Break)) for x in ast.walk(loop)), "ARGFLOW", "S6.all-positions-valued", subj, fa.loc(loop), "every entry of the position ledger is valued",
-             "the valuation loop skips entries", construct=stmt_text(loop))
+    got_bad, _ = iteration([f"{qvar} != 0", f"{kindp} != 'notional'", f"{kindp} != 'liquidation'"])
+    ck.check(got_bad is None, "GUARD", "S6.unknown-kind-raises", subj, fa.loc(loop), "an unsupported kind raises", f"an unsupported kind is valued {got_bad.key()[:120] if got_bad is not None else ''}", construct="raise ValueError(\"Unsupported 'kind'.\")")
+    ck.check(not any(isinstance(x, ast.Break) for x in ast.walk(loop)), "ARGFLOW", "S6.all-positions-valued", subj, fa.loc(loop), "every entry of the position ledger is valued (the loop is never cut short)",
+             "the valuation loop can stop early", construct=stmt_text(loop))
     if "nlv" in want:
         fn = an.fa("Broker.net_liquidation_value")
         mt = fn.calls_to("Broker.marking_to_market")
@@ -423,7 +425,7 @@ def valuation_formulas(ck, an, want: set):
         for m in mt:
             ck.check(not m.args and not m.keywords, "ARGFLOW", "S5.marks-all-contracts", fn.f.short, fn.loc(m), "valuation marks every contract", f"valuation marks only {ast.unparse(m)}", construct=stmt_text(m))
         rets = [r for r in returns_in(fn) if r.value is not None]
-        k = [fn.sym.canon(r.value) for r in rets]
+        k = sorted({fn.sym.canon(r.value) for r in rets})
         specs = [specv(fn, t).key() for t in ("sum(self.holdings_values(kind='liquidation').values())", "sum(self.holdings_values('liquidation').values())")]
         ck.check(len(k) == 1 and k[0] in specs, "LIN", "S6.nlv-is-sum-of-liquidation-values", fn.f.short, fn.f.loc,
                  "NLV = sum of liquidation values (cash + margins + fully-paid positions)", f"NLV = {k}", construct="return nlv")
